@@ -711,15 +711,20 @@ def tensor_merge(arr: ndarray, ins: ndarray, pos: Sequence[int],
     ins_chars = string.ascii_letters[:ins_ndim*rank]
     arr_chars = string.ascii_letters[ins_ndim*rank:(ins_ndim+arr_ndim)*rank]
     out_chars = ''
+    # Normalize possibly negative positions before sorting by them
+    norm_pos = []
+    for p in pos:
+        if p != arr_ndim:
+            div, p = divmod(p, arr_ndim)
+            if div not in (-1, 0):
+                raise IndexError(f'Invalid position {p + div*arr_ndim} specified. Must be '
+                                 + f'between -{arr_ndim} and {arr_ndim}.')
+        norm_pos.append(p)
+
     for r in range(rank):
         arr_part = arr_chars[r*arr_ndim:(r+1)*arr_ndim]
         ins_part = ins_chars[r*ins_ndim:(r+1)*ins_ndim]
-        for i, (p, ins_p) in enumerate(sorted(zip(pos, ins_part))):
-            if p != arr_ndim:
-                div, p = divmod(p, arr_ndim)
-                if div not in (-1, 0):
-                    raise IndexError(f'Invalid position {pos[i]} specified. Must be between '
-                                     + f'-{arr_ndim} and {arr_ndim}.')
+        for i, (p, ins_p) in enumerate(sorted(zip(norm_pos, ins_part))):
             arr_part = arr_part[:p+i] + ins_p + arr_part[p+i:]
 
         out_chars += arr_part
